@@ -182,19 +182,82 @@ class Ctx(Stats):
         return time.time() - self.t0
 
     # -- process pool ------------------------------------------------------
-    def pmap(self, fn, jobs, procs=None):
-        """Run fn(job) -> Stats over jobs in a process pool, merge results."""
+    def pmap(self, fn, jobs, procs=None, ambient=True):
+        """Run fn(job) -> Stats over jobs in a process pool, merge results.  The shards are spread over the ambient
+        environments (see AMBIENTS): the properties do not depend on the log level or on the machine's time zone."""
         import multiprocessing as mp
 
         procs = procs or min(16, os.cpu_count() or 1, max(1, len(jobs)))
+        wrapped = [(fn, j, AMBIENTS[i % len(AMBIENTS)] if (ambient and len(jobs) > 1) else None) for i, j in enumerate(jobs)]
         if procs <= 1 or len(jobs) <= 1:
-            for j in jobs:
-                self.merge(fn(j))
+            for w in wrapped:
+                self.merge(_ambient_call(w))
             return
         mpctx = mp.get_context("fork")
         with mpctx.Pool(procs) as pool:
-            for st in pool.imap_unordered(fn, jobs, chunksize=1):
+            for st in pool.imap_unordered(_ambient_call, wrapped, chunksize=1):
                 self.merge(st)
+
+
+# ---------------------------------------------------------------------------
+# ambient environment: things a user's process has that no input carries
+# ---------------------------------------------------------------------------
+AMBIENTS = [
+    None,
+    {"log": "DEBUG"},  # what `ofxget -vv` or logging.basicConfig(level=DEBUG) gives
+    {"tz": "XST-5:30XDT,M3.2.0,M11.1.0"},  # a local time zone that is not UTC (POSIX rule, no tz database needed)
+    {"log": "DEBUG", "tz": "YST8"},
+    None,
+]
+
+
+class _Sink:
+    """A log handler that formats every record (as a real handler would) and throws it away."""
+
+    level = 0
+
+    def handle(self, record):
+        try:
+            record.getMessage()
+        except Exception:
+            pass
+        return True
+
+
+def apply_ambient(amb):
+    import logging
+
+    lg = logging.getLogger("ofxtools")
+    if amb and amb.get("log"):
+        lg.setLevel(getattr(logging, amb["log"]))
+        if not any(isinstance(h, logging.Handler) and getattr(h, "_verif_sink", False) for h in lg.handlers):
+            h = logging.Handler()
+            h._verif_sink = True
+            h.emit = lambda record: record.getMessage()
+            lg.addHandler(h)
+        lg.propagate = False
+    else:
+        lg.setLevel(logging.NOTSET)
+        lg.propagate = True
+        for h in list(lg.handlers):
+            if getattr(h, "_verif_sink", False):
+                lg.removeHandler(h)
+    os.environ["TZ"] = (amb or {}).get("tz") or "UTC"
+    time.tzset()
+
+
+def _ambient_call(w):
+    fn, job, amb = w
+    apply_ambient(amb)
+    try:
+        st = fn(job)
+    finally:
+        apply_ambient(None)
+    if amb:
+        st.labels["shards run in ambient " + canon(amb)] += 1
+        for k, (size, case, detail) in list(st.failures.items()):
+            st.failures[k] = (size, {"__ambient__": amb, "case": case}, f"{detail} [ambient environment {canon(amb)}]")
+    return st
 
 
 # ---------------------------------------------------------------------------
@@ -367,8 +430,12 @@ def finish(ctx: Ctx, mod) -> int:
 
 def replay(mod, path) -> int:
     data = json.loads(Path(path).read_text())
+    case = data["case"]
+    if isinstance(case, dict) and "__ambient__" in case:
+        apply_ambient(case["__ambient__"])
+        case = case["case"]
     try:
-        res = mod.check_case(data["case"])
+        res = mod.check_case(case)
     except HarnessError:
         raise
     except Exception as e:  # same convention as hyp_run: the case makes the library misbehave in an unanticipated way
